@@ -498,11 +498,8 @@ func RunStreamCapture(em *Emitter, tr int, st *Stream, capt *Capture) {
 	for _, pr := range st.Props {
 		props = append(props, pr)
 	}
-	mode := st.Mode
-	if st.NoWire {
-		mode = 9
-	}
-	em.Emit(tr, "Begin", map[string]any{"x": st.ID, "sig": st.Signal, "err": string(ojs), "a": limitEntries, "b": mode, "l": props})
+	em.Emit(tr, "Begin", map[string]any{"x": st.ID, "sig": st.Signal, "err": string(ojs), "a": limitEntries, "b": st.Mode, "l": props,
+		"flag": boolp(st.NoWire)})
 	if p == nil {
 		em.Emit(tr, "End", map[string]any{"oc": "producer-create-panic"})
 		return
